@@ -117,6 +117,8 @@ def run(ctx):
         "slog.Value.Resolve, strconv.Quote, time.Format and fmt are correct (their output enters the model as tokens)",
     ]
     ctx.lean(props=["Props.C13"], drivers=["drv_c13"])
+    from vlib import lockfacts
+    lockfacts.run(ctx, "tracelog", "Props.C13Lock", "C13Lock")   # lock discipline decided about tables regenerated from the Go source
     ctx.harness("./cmd/c13")
     ctx.diff(area="log", driver="drv_c13", n={"quick": 40000, "thorough": 600000}, stateful=True,
              trivial=lambda l, o: l.split(" ", 1)[0] in ("new", "mnew", "mode", "hold", "wg", "wa", "setlevel"),
